@@ -47,6 +47,9 @@ func feed(cfg config, stream []byte, chunks []int, judgeFrom int) (*ls.Loop, *re
 		return nil, nil, false
 	}
 	ref := &refmidi.Receiver{BufSize: int(cfg.buf), SysexOn: cfg.sysex}
+	if refBuf != 0 {
+		ref.BufSize = refBuf
+	}
 	pos := 0
 	ci := 0
 	for pos < len(stream) {
@@ -94,15 +97,43 @@ func feed(cfg config, stream []byte, chunks []int, judgeFrom int) (*ls.Loop, *re
 	return l, ref, true
 }
 
-func product(cfg config) {
-	b := &engine.BFS{NumOps: len(ls.Classes), MaxStates: 3_000_000}
+// chunkOps: every single byte class, plus every chunk of two and three bytes
+// over a reduced alphabet (decoders may treat a Send that carries a whole
+// message differently from the same bytes arriving one by one).
+func chunkOps(multi bool) [][]byte {
+	var ops [][]byte
+	for _, c := range ls.Classes {
+		ops = append(ops, []byte{c})
+	}
+	if !multi {
+		return ops
+	}
+	red := []byte{0x01, 0x90, 0xC0, 0xF0, 0xF7, 0xF4, 0xF8, 0xF2, 0x7F}
+	for _, a := range red {
+		for _, b := range red {
+			ops = append(ops, []byte{a, b})
+			for _, c := range red {
+				ops = append(ops, []byte{a, b, c})
+			}
+		}
+	}
+	return ops
+}
+
+func product(cfg config) { productOps(cfg, false) }
+
+func productOps(cfg config, multi bool) {
+	ops := chunkOps(multi)
+	b := &engine.BFS{NumOps: len(ops), MaxStates: 3_000_000}
 	b.Run = func(path []uint16) (string, bool) {
-		stream := make([]byte, len(path))
-		for i, p := range path {
-			stream[i] = ls.Classes[p]
+		var stream []byte
+		var chunks []int
+		for _, p := range path {
+			stream = append(stream, ops[p]...)
+			chunks = append(chunks, len(ops[p]))
 		}
 		ctx.Eval()
-		l, ref, ok := feed(cfg, stream, nil, len(stream)-1)
+		l, ref, ok := feed(cfg, stream, chunks, len(stream)-len(ops[path[len(path)-1]]))
 		if !ok || l == nil {
 			// a diverged or crashed state has no meaningful successors
 			return "", false
@@ -119,7 +150,7 @@ func product(cfg config) {
 	if !b.Fixpoint {
 		ctx.NotExhaustive(fmt.Sprintf("product search %s stopped at %d states without reaching the fixpoint", cfg, b.States))
 	}
-	fmt.Printf("product %-18s states=%d transitions=%d depth=%d fixpoint=%v\n", cfg, b.States, b.Transitions, b.Depth, b.Fixpoint)
+	fmt.Printf("product %-18s chunk-ops=%v ops=%d states=%d transitions=%d depth=%d fixpoint=%v\n", cfg, multi, len(ops), b.States, b.Transitions, b.Depth, b.Fixpoint)
 }
 
 func boolInt(b bool) int64 {
@@ -213,6 +244,62 @@ func garbage(cfg config, first int) {
 	}
 }
 
+// sysexSizes: buffer sizes x sysex lengths around every boundary: a sysex is
+// delivered iff its total length (F0 and F7 included) fits the buffer; the
+// message after it is decoded either way.
+func sysexSizes(part, parts int) {
+	var sizes []int
+	for s := 2; s <= 260; s++ {
+		sizes = append(sizes, s)
+	}
+	sizes = append(sizes, 0, 511, 512, 513, 1000, 1023, 1024, 1025, 2047, 2048, 2049, 4096)
+	for si, size := range sizes {
+		if si%parts != part {
+			continue
+		}
+		eff := size
+		if eff == 0 {
+			eff = 1024
+		}
+		var lens []int
+		if eff <= 260 {
+			for l := 2; l <= eff+3; l++ {
+				lens = append(lens, l)
+			}
+		} else {
+			for _, l := range []int{2, 3, 127, 128, 129, 200, 255, 256, 257, 500, 511, 512, 513, 1000, 1023, 1024, 1025, 2047, 2048, 2049, eff - 1, eff, eff + 1, eff + 2} {
+				if l <= eff+2 {
+					lens = append(lens, l)
+				}
+			}
+		}
+		for _, l := range lens {
+			stream := []byte{0xF0}
+			for i := 0; i < l-2; i++ {
+				stream = append(stream, byte(i%100))
+			}
+			stream = append(stream, 0xF7, 0x90, 0x3C, 0x40)
+			cfg := config{true, uint32(size)}
+			// the reference takes the effective size
+			ctx.Eval()
+			feedSized(cfg, eff, stream, []int{len(stream)})
+			if l <= 300 {
+				ctx.Eval()
+				feedSized(cfg, eff, stream, nil)
+			}
+			ctx.Add("sysex_size_cases", 1)
+		}
+	}
+}
+
+func feedSized(cfg config, eff int, stream []byte, chunks []int) {
+	refBuf = eff
+	feed(cfg, stream, chunks, 0)
+	refBuf = 0
+}
+
+var refBuf int
+
 func main() {
 	ctx = engine.Start("C06", "model_checking")
 	if ctx.ReplayPath != "" {
@@ -223,6 +310,8 @@ func main() {
 	ctx.Assume("the decoder's private state is read by reflection over all non-func fields of the *drivers.Reader held by the loopback driver; the virtual clock is never advanced, so time stamps do not split states")
 	cfgs := []config{{true, 5}, {false, 5}, {true, 3}, {true, 8}}
 	ctx.JobsW("product", len(cfgs), 4, func(j int) { product(cfgs[j]) })
+	ctx.JobsW("product-chunks", 2, 8, func(j int) { productOps(cfgs[j], true) })
+	ctx.Jobs("sysex-sizes", 16, func(j int) { sysexSizes(j, 16) })
 	type bj struct {
 		cfg   config
 		first int
